@@ -7,3 +7,7 @@ import "io/fs"
 // VerifC07BuiltinFS exposes the embedded pkg/interp/*.jq sources (read-only accessor for the C07
 // harness, which re-derives the override table from what is really compiled in).
 func VerifC07BuiltinFS() fs.ReadDirFS { return builtinFS }
+
+// VerifC07ExtKeys is decodeValueBase.ExtKeys(): the `_`-prefixed keys every decode value answers to
+// (the C07 generators use them as ordinary JSON object keys).
+func VerifC07ExtKeys() []string { return decodeValueBase{}.ExtKeys() }
